@@ -95,12 +95,20 @@ mod std_part {
         interpose::arm();
         let res = guarded(|| match via {
             0 => MmapRegion::<()>::build(fo.clone(), q.size, q.prot, q.flags),
-            _ => {
+            1 => {
                 let mut b = MmapRegionBuilder::<()>::new(q.size).with_mmap_prot(q.prot).with_mmap_flags(q.flags);
                 if let Some(f) = fo.clone() {
                     b = b.with_file_offset(f);
                 }
                 b.build()
+            }
+            _ => {
+                // other setter order, with the hugetlbfs hint (pure metadata: the request is the same)
+                let mut b = MmapRegionBuilder::<()>::new(q.size).with_hugetlbfs(via % 2 == 0);
+                if let Some(f) = fo.clone() {
+                    b = b.with_file_offset(f);
+                }
+                b.with_mmap_flags(q.flags).with_mmap_prot(q.prot).build()
             }
         });
         let log = interpose::disarm();
@@ -141,7 +149,7 @@ mod std_part {
                     v("mapping-differs-from-request", jobj! {"req" => J::dbg(q), "log" => J::dbg(&log)});
                 }
                 // coherence for shared file mappings that are readable+writable
-                if let (Some(f), true) = (&file, q.flags & libc::MAP_SHARED != 0 && q.prot == (libc::PROT_READ | libc::PROT_WRITE) && q.size > 0) {
+                if let (Some(f), true) = (&file, q.flags & libc::MAP_SHARED != 0 && q.flags & libc::MAP_ANONYMOUS == 0 && q.prot == (libc::PROT_READ | libc::PROT_WRITE) && q.size > 0) {
                     coherence(&reg, f, q, stats);
                 }
                 out::key(&format!("build|ok|{}", cls), true);
@@ -316,12 +324,13 @@ mod std_part {
         for flags in flag_words {
             for size in [1usize, 4095, 4096, 4097, 65536] {
                 for prot in [rw, libc::PROT_READ, libc::PROT_NONE] {
-                    construct(&Req { size, prot, flags, file_len: None, offset: 0 }, (size % 2) as u64, stats);
+                    construct(&Req { size, prot, flags, file_len: None, offset: 0 }, (size % 4) as u64, stats);
                 }
             }
         }
         // file-backed: grid around end-of-file
-        let file_flags = [libc::MAP_SHARED, libc::MAP_SHARED | libc::MAP_NORESERVE, libc::MAP_PRIVATE, libc::MAP_SHARED | libc::MAP_FIXED];
+        // (a file together with MAP_ANONYMOUS is still a request with a file: its range is checked)
+        let file_flags = [libc::MAP_SHARED, libc::MAP_SHARED | libc::MAP_NORESERVE, libc::MAP_PRIVATE, libc::MAP_SHARED | libc::MAP_FIXED, libc::MAP_PRIVATE | libc::MAP_ANONYMOUS, libc::MAP_SHARED | libc::MAP_ANONYMOUS | libc::MAP_NORESERVE];
         for flags in file_flags {
             for fl in [1u64, 4095, 4096, 4097, 8192, 12288] {
                 for off in [0u64, 4096, 8192, u64::MAX - 4095, u64::MAX & !4095, 1] {
@@ -330,7 +339,7 @@ mod std_part {
                         if size == 0 {
                             continue;
                         }
-                        construct(&Req { size, prot: rw, flags, file_len: Some(fl), offset: off }, (size as u64 ^ off) % 2, stats);
+                        construct(&Req { size, prot: rw, flags, file_len: Some(fl), offset: off }, (size as u64 ^ off ^ (off >> 12)) % 4, stats);
                     }
                 }
             }
@@ -397,12 +406,15 @@ mod std_part {
             if r.chance(1, 8) {
                 flags |= libc::MAP_FIXED;
             }
+            if with_file && r.chance(1, 6) {
+                flags |= libc::MAP_ANONYMOUS;
+            }
             let prot = *r.pick(&[libc::PROT_READ | libc::PROT_WRITE, libc::PROT_READ | libc::PROT_WRITE, libc::PROT_READ, libc::PROT_NONE]);
             if size == 0 {
                 continue;
             }
             out::set_case(case);
-            construct(&Req { size, prot, flags, file_len: fl, offset: off }, r.below(2), stats);
+            construct(&Req { size, prot, flags, file_len: fl, offset: off }, r.below(4), stats);
         }
     }
 }
